@@ -93,6 +93,9 @@ def c06(msizes, auths, frameN, frameMsize, unpackN):
         runs.append({"harness": "vxH06Session", "args": [str(t), str(n), "64"], "files": F, "preempt": 0, "free_switches": -1, "reach": ["done"],
                      "bounds": f"live session (Tversion, Tattach, Twalk, Topen done; AuthOps+FlushOp implementation answering ok/error): one frame of type {t} and {n} bytes whose tag and whole body are symbolic goes through receive loop, decoder, worker, implementation, reply path and sender; msize 64; deterministic schedule"})
     for dotu in ("false", "true"):
+        runs.append({"harness": "vxH06Reneg", "args": [dotu], "files": ["api", "ref_wire", "kit_srv", "kit_net", "kit_fs", "reneg_c06"], "preempt": 0, "free_switches": -1, "reach": ["done"],
+                     "bounds": f"Ufs session: Tversion with symbolic msize 24..40, a second Tversion with any 32-bit msize, attach, open the root directory, Tread with any 32-bit count, Tstat; dotu={dotu}"})
+    for dotu in ("false", "true"):
         runs.append({"harness": "vxH15Window", "args": [dotu, "4", "8", "true"], "files": ["api", "ref_wire", "kit_srv", "kit_fs", "c15_dirread"], "reach": ["arbitrary-offset"],
                      "bounds": f"Ufs directory Tread at an arbitrary 64-bit offset and 32-bit count on an arbitrary valid snapshot (<= 4 entries), dotu={dotu}"})
         runs.append({"harness": "vxH14Read", "args": [dotu, "8", "10"], "files": ["api", "ref_wire", "kit_srv", "kit_fs", "c14_data"], "reach": [],
@@ -121,8 +124,12 @@ def c13(combos):
         runs.append({"harness": "vxH13Srv", "args": [str(msize), str(nreq), str(pay), str(ncuts)], "files": F, "preempt": 0, "free_switches": -1, "reach": ["done"], "timeout_s": 2400,
                      "bounds": f"server receive loop, msize {msize} (8*msize receive buffer): stream of {nreq} requests (Twrite with {pay}-byte symbolic payload / Tstat / Tread, symbolic offsets) delivered under {what} vs. in one segment; deterministic goroutine schedule (segmentation is the subject)"})
     return runs
-w("C13", merge_frag({"quick": c13([(32, 15, 3, 1), (32, 7, 3, 2), (32, 15, 3, -1), (64, 6, 9, 1)]),
- "thorough": c13([(32, 30, 3, 1), (32, 15, 3, 2), (32, 5, 3, 3), (32, 30, 3, -1), (64, 30, 9, 1), (64, 12, 9, 2)]),
+def c13s(combos):
+    F = KIT + ["c13_seg_srv"]
+    return [{"harness": "vxH13SrvSession", "args": [str(m), "true" if d else "false", str(n), str(c)], "files": F, "preempt": 0, "free_switches": -1, "reach": ["done"], "timeout_s": 2400,
+             "bounds": f"whole session as one stream on a .u server with msize 8192: Tversion(msize {m}, {'9P2000.u' if d else '9P2000'}) and {n} independent Tattach requests with symbolic attach names, delivered under {'one byte at a time' if c < 0 else f'every choice of {c} cut position(s)'} vs. one segment"} for (m, d, n, c) in combos]
+w("C13", merge_frag({"quick": c13([(32, 15, 3, 1), (32, 7, 3, 2), (32, 15, 3, -1), (64, 6, 9, 1)]) + c13s([(32, False, 3, 1), (32, True, 3, 1), (64, False, 4, -1)]),
+ "thorough": c13([(32, 30, 3, 1), (32, 15, 3, 2), (32, 5, 3, 3), (32, 30, 3, -1), (64, 30, 9, 1), (64, 12, 9, 2)]) + c13s([(32, False, 12, 1), (32, True, 12, 1), (32, False, 4, 2), (64, True, 6, 2), (32, False, 12, -1)]),
  "outside": ["4 or more independent cuts on long streams; msize > 64", "interleavings of the worker goroutines (covered by C03/C08)"],
  "assumptions": [SCHED]}, "C13_clnt.frag.json"))
 
@@ -133,6 +140,8 @@ def c19(P, clnt):
     for (dotu, batch) in (("false", 0), ("true", 1)):
         runs.append({"harness": "vxH19Ufs", "args": [dotu, str(batch)], "files": UF, "preempt": P, "free_switches": 2, "race": True, "reach": ["done"], "timeout_s": 2400,
                      "bounds": f"Ufs on the model file system through Srv.NewConn: two Twalks from one shared fid{' + a Tread on another fid' if batch else ''} outstanding together, dotu={dotu}; <= {P} preemptions, <= 2 non-default choices at blocking points"})
+    runs.append({"harness": "vxH19UfsWrite", "args": ["32", "8"], "files": UF, "preempt": P, "free_switches": -1, "race": True, "reach": ["done"], "timeout_s": 2400,
+                 "bounds": f"Ufs (msize 32, 256-byte receive buffer): a Twrite executing while 8 msize-sized requests on other (unknown) fids arrive and wrap the receive buffer; <= {P} preemptions, deterministic successor at blocking points"})
     runs.append({"harness": "vxH19Conns", "args": [], "files": KIT + ["c19_conns"], "preempt": P, "free_switches": 1, "race": True, "reach": ["done"], "timeout_s": 2400,
                  "bounds": f"a second connection is opened, attached and dropped while the first has requests on two different fids in flight; <= {P} preemptions"})
     runs.append({"harness": "vxH03E2E", "args": ["2", "0", "0", "true"], "files": KIT + ["c03"], "preempt": P, "race": True, "reach": ["done"], "timeout_s": 2400,
